@@ -40,14 +40,14 @@ class C20(BaseCheck):
           '*args/**kwargs signatures) exercised through both forms of every public method with '
           'generated arguments and scripted results (value, error, completed later), plus 6 '
           'generated URIs (tcp with 1-8 endpoints, zk with/without #name, bad schemes, mixed-case '
-          'schemes); non-trivial = at least one public method and one URI checked; distinct by '
+          'schemes); keyword arguments include names that mean something elsewhere in the client (timeout, method, args, kwargs, ...); a parsed tcp provider is read 2-4 times; non-trivial = at least one public method and one URI checked; distinct by '
           '(set of name shapes, chain depth, URI kinds)')
   ANCHORS = ('scales.core:ClientProxyBuilder._BuildServiceProxy',
              'scales.core:ScalesUriParser.Parse')
   REQUIRED_ANCHORS = ANCHORS
   REQUIRED_CLASSES = ('name:plain', 'name:x_', 'name:x__', 'name:_x', 'name:__x__', 'uri:tcp', 'uri:zk',
                       'uri:bad', 'result:error', 'result:later', 'inherited', 'function-name-differs', 'alias',
-                      'uri:tcp-read-again')
+                      'uri:tcp-read-again', 'kwargs:loaded-names')
   ASSUMPTIONS = ('public method = every user method that is not a dunder name (the property quantifies over names '
                  'with leading and trailing underscores, so _x and _x_ are judged like any other); names that collide with '
                  'another method\'s _async form or with the proxy base class are not generated',)
@@ -138,10 +138,19 @@ class C20(BaseCheck):
           args, kwargs = (rng.randint(0, 99), [1, 2]), {}
         elif sig == 'default':
           args, kwargs = ('s',), {'c': {'k': object()}}
+          if rng.random() < 0.3:
+            args, kwargs = (), {'a': 's', 'b': rng.choice([0, 4]), 'c': None}      # everything by keyword
         elif sig == 'varargs':
           args, kwargs = tuple(object() for _ in range(rng.randint(0, 4))), {}
         elif sig == 'kwargs':
           args, kwargs = (), {'a': 5, 'zz': [object()], 'y': None}
+          if rng.random() < 0.5:
+            # parameter names an interface may well use and that mean something elsewhere in the
+            # client (per-call options, the proxy's own locals)
+            classes.add('kwargs:loaded-names')
+            for kn in rng.sample(['timeout', 'method', 'args', 'kwargs', 'asynchronous', 'self_', 'deadline',
+                                  'method_name', 'source', 'headers'], rng.randint(1, 4)):
+              kwargs[kn] = rng.choice([0, 30, 2.5, None, 'v', object()])
         else:
           args, kwargs = (), {}
         mode = rng.choice(['value', 'error', 'later', 'later-error'])
